@@ -67,7 +67,7 @@ Proof.
   - rewrite (range_loop_fold seg_step _ (fun _ _ _ => eq_refl)). rewrite fold_seg_step. cbn [fst snd].
     unfold gen_DXF_Save, SaveAs_m, save_dxf, ChangeLayer_m. cbn [fst snd err_nonnil]. reflexivity.
   - intros k [[x0 y0] [x1 y1]] d Hk _. cbn [app] in Hk. cbv beta.
-    match goal with |- context [idx ?m ?i] => replace (idx m i) with (Some (x0, y0, (x1, y1))) by (rewrite idx_nat; symmetry; exact Hk) end.
+    repeat match goal with |- context [idx ?m ?i] => replace (idx m i) with (Some (x0, y0, (x1, y1))) by (rewrite idx_nat; symmetry; exact Hk) end.
     reflexivity.
 Qed.
 
